@@ -94,9 +94,22 @@ def _apply(acl, op, w):
     return acl
 
 
-def _model(state, op, new_rule):
+def _model(state, op, new_rule, w=None):
     """reference model of each operation on the block list; meaning-preserving operations leave it alone"""
-    if op == "group":
+    if op in ("nxos", "ungroup_ports") and w is not None:
+        # a multi-port entry becomes adjacent single-port entries in place
+        out = []
+        for b in state.blocks:
+            parts = [x for e in b for x in (_split(w, e) if type(e) is Rule else [e])]
+            if state.group_by:
+                out.append(parts)                       # inside a block of a grouped ACL
+            else:
+                out += [[x] for x in parts]             # flat ACL: every entry is a top-level item of its own
+        state.blocks = out
+    if op == "group" or (op in ("reparse", "copy", "data") and state.group_by):
+        # copy()/Acl(**data())/re-parsing build the ACL again and, with group_by set, form the blocks again from the flat
+        # line order: a plain entry standing after a block (insert + reverse) joins that block
+        keep_gb = state.group_by
         blocks, cur = [], []
         flat = [e for b in state.blocks for e in b]
         heads = 0
@@ -110,8 +123,10 @@ def _model(state, op, new_rule):
                 cur.append(e)
         if cur:
             blocks.append(cur)
-        state.blocks = blocks
-        state.group_by = "= "
+        if op == "group" or [len(b) for b in blocks] != [len(b) for b in state.blocks]:
+            state.blocks = blocks
+            state.rank = None if op != "group" else state.rank
+        state.group_by = "= " if op == "group" else keep_gb
     elif op == "ungroup":
         state.blocks = [[e] for b in state.blocks for e in b]
         state.group_by = ""
@@ -138,13 +153,48 @@ def _model(state, op, new_rule):
             state.order_known = False
 
 
+def _text_ambiguous(state):
+    if not state.group_by:
+        return False
+    seen_block = False
+    for b in state.blocks:
+        head = type(b[0]) is tuple and b[0][0] == "heading"
+        if head:
+            seen_block = True
+        elif seen_block:
+            return True
+    return False
+
+
 def _entries(w, specs):
     out = []
     for s in specs:
         if s["kind"] == "remark":
             out.append(("heading", s["text"]) if s["text"].startswith("= ") else "remark")
         else:
-            out.append(AG.line_rule(w, s))
+            r = AG.line_rule(w, s)
+            r.spec = s
+            out.append(r)
+    return out
+
+
+def _split(w, rule):
+    """the single-port entries a multi-port eq/neq entry becomes on NX-OS / under ungroup_ports (source-major order)"""
+    s = getattr(rule, "spec", None)
+    if s is None:
+        return [rule]
+    sides = []
+    for d in (s["sport"], s["dport"]):
+        sides.append([d] if d is None or d[0] not in ("eq", "neq") or len(d[1]) < 2 else [(d[0], [n]) for n in d[1]])
+    if len(sides[0]) * len(sides[1]) == 1:
+        return [rule]
+    out = []
+    for sp in sides[0]:
+        for dp in sides[1]:
+            s2 = dict(s, sport=sp, dport=dp)
+            r = AG.line_rule(w, s2)
+            r.spec = s2
+            out.append(r)
     return out
 
 
@@ -167,17 +217,21 @@ def h_history(ctx):
         _model(state, "group", None)
     pkt = Pkt(ctx)
     new_rule = Rule("deny", 17, True, True, True, (lambda f: V(f) == 53))
+    ambiguous = False
     for k, op in enumerate(hist):
         if op == "pop" and len(state.blocks) <= 1:
             return None
         prev_text, prev_kw = acl.line, _kwargs(acl)
+        # the rendered text determines the object only while no plain entry stands after a block of a grouped ACL (such a
+        # state is reachable by insert + reverse, not by parsing): the fresh-parse comparison is made only where it is sound
+        ambiguous = ambiguous or _text_ambiguous(state)
         try:
             acl = _apply(acl, op, w)
         except ValueError as e:
             ctx.observe(f"s{k}", "ValueError")
             ctx.claim(f"s{k}:{op}:refused", True)           # none of these operations may fail on a consistent ACL
             return None
-        _model(state, op, new_rule)
+        _model(state, op, new_rule, w)
         ctx.observe(f"s{k}", acl.line)
         cl = Claims(ctx)
         # (1) the rendered text parses back to itself
@@ -196,7 +250,7 @@ def h_history(ctx):
             ctx.observe("reject", str(e))
             cl(f"s{k}:{op}:rendered-text-valid", True)
         # (3) history independence: the same operation on a freshly parsed rendering of the previous state
-        if op not in ("copy", "data", "reparse"):
+        if op not in ("copy", "data", "reparse") and not ambiguous:
             fresh = Acl(prev_text, **prev_kw)
             AG.attach_groups(w, fresh)
             fresh = _apply(fresh, op, w)
@@ -217,11 +271,15 @@ HISTORIES = []
 
 def specs(tier, seed, concrete=False):
     global HISTORIES
+    import json
+    import os
     rnd = random.Random(seed)
     HISTORIES = [[a] for a in OPS] + [[a, b] for a in OPS for b in OPS]
     if tier != "quick":
         triples = [list(t) for t in itertools.product(OPS, repeat=3)]
         rnd.shuffle(triples)
         HISTORIES += triples[:600]
+    if os.environ.get("VERIF_C17_HIST"):            # development aid: explore the given histories only
+        HISTORIES = json.loads(os.environ["VERIF_C17_HIST"])
     return [Spec("history", h_history, [{"seed": s, "history": h} for s in sorted(SEEDS) for h in HISTORIES], goals=["history"],
                  max_paths=3000, describe="operation histories vs reference model, re-parse fixpoint, history independence")]
